@@ -16,6 +16,9 @@ fn herr_idx(e: &HeadersParseError) -> u64 {
         HeadersParseError::MissingPath => 7,
         HeadersParseError::MissingStatusCode => 8,
         HeadersParseError::InvalidStatusCode => 9,
+        // (a variant this harness does not know: the model has no such error either)
+        #[allow(unreachable_patterns)]
+        _ => 99,
     }
 }
 
